@@ -71,6 +71,38 @@ def make_field(desc):
     raise ValueError(mode)
 
 
+def make_pulsed_field(desc, ts):
+    """L(t) = L0 + bump(t) * L1 where the smooth bump is *exactly zero* at the start, the midpoint and the end of
+    every update interval and non-zero in two windows in between: any shortcut that samples L at a few times of an
+    interval ("the flow is steady") sees a constant field."""
+    rng = np.random.default_rng([int(desc["seed"]), 77])
+    _, L0 = gen.velgrad(rng, desc["kind"], unit=True)
+    _, L1 = gen.velgrad(rng, desc.get("kind2"), unit=True)
+    k = float(desc.get("k", 1.0))
+    L0, L1 = L0 * k, L1 * k * 1.5
+    ts = np.asarray(ts, float)
+    lo = np.minimum(ts[:-1], ts[1:])
+    hi = np.maximum(ts[:-1], ts[1:])
+    order = np.argsort(lo)
+    lo, hi = lo[order], hi[order]
+    windows = [(0.1, 0.4), (0.6, 0.9)]
+    breaks = sorted(float(a + w * (b - a)) for a, b in zip(lo, hi) for ww in windows for w in ww)
+
+    def bump(t):
+        j = int(np.clip(np.searchsorted(lo, t, side="right") - 1, 0, len(lo) - 1))
+        s = (t - lo[j]) / (hi[j] - lo[j])
+        for (u, v) in windows:
+            if u < s < v:
+                return float(np.sin(np.pi * (s - u) / (v - u)) ** 2)
+        return 0.0
+
+    def Lfun(t, x):
+        b = bump(t)
+        return L0 if b == 0.0 else L0 + b * L1
+
+    return Lfun, (lambda t: np.zeros(3)), breaks
+
+
 # =============================================================================================
 
 
@@ -120,11 +152,14 @@ class History:
         fd["t0"] = self.t0
         if fd.get("mode") == "multirate":
             self.breaks = [self.t0 + self.T * rho / (1 + rho)]
-        self.Lfun, self.posfun = make_field(fd)
         self.N = int(case["N"])
         self.ts = gen.partition(rng, self.t0, self.t0 + self.T, self.N, equal=case.get("equal", True))
+        if fd.get("mode") == "pulsed":
+            self.Lfun, self.posfun, self.breaks = make_pulsed_field(fd, self.ts)
+        else:
+            self.Lfun, self.posfun = make_field(fd)
         # reversed interval: the same span integrated from its end to its start (time_start > time_end)
-        self.reversed = bool(case.get("reversed", False)) and fd.get("mode") != "multirate"
+        self.reversed = bool(case.get("reversed", False)) and fd.get("mode") not in ("multirate", "pulsed")
         if self.reversed:
             self.ts = self.ts[::-1].copy()
         # memory layout of the arrays handed to the Mineral (same values, different strides)
@@ -176,8 +211,9 @@ class History:
     def mineral(self, A0=None, f0=None, regime=None, **kw):
         static = self.regime if regime is None else regime
         if regime is None and self.get_regime_fn() is not None:
-            # the static attribute deliberately differs from what the callback will report
-            static = 4 if self.regime != 4 else 6
+            # the static attribute deliberately differs from what the callback will report (it may even be a null regime)
+            others = [r for r in (4, 6, 0, 7) if r != self.regime]
+            static = others[int(self.case["seed"]) % len(others)]
         m = self.pydrex.Mineral(
             phase=self.phase, fabric=self.fabric,
             regime=self.pydrex.core.DeformationRegime(static),
@@ -251,7 +287,7 @@ def relayout(a, layout):
 
 def random_history_case(rng, **fixed):
     """Descriptor of a random hostile history. ``fixed`` pins any field."""
-    mode = rng.choice(["const", "const", "timedep", "posdep", "multirate"], p=[0.3, 0.2, 0.2, 0.15, 0.15])
+    mode = rng.choice(["const", "const", "timedep", "posdep", "multirate", "pulsed"], p=[0.3, 0.15, 0.2, 0.15, 0.12, 0.08])
     case = {
         "seed": int(rng.integers(1 << 31)),
         "combo": int(rng.integers(6)),
